@@ -114,6 +114,17 @@ func (i *int32InternalNode) count() int { return len(i.runts) }
 
 func (i *int32InternalNode) deleteKey(minSize int, key int32) bool {
 	index := int32SearchLessThanOrEqualTo(key, i.runts)
+	var leftSibling, rightSibling int32Node
+	var leftCount, rightCount int
+
+	if index > 0 {
+		// Lock the left sibling before the child, so that siblings are always
+		// locked left to right, the same direction cursors traverse the leaves.
+		leftSibling = i.children[index-1]
+		leftSibling.lock()
+		defer leftSibling.unlock()
+	}
+
 	child := i.children[index]
 	child.lock()
 	defer child.unlock()
@@ -122,9 +133,6 @@ func (i *int32InternalNode) deleteKey(minSize int, key int32) bool {
 		return false
 	}
 	// POST: child is too small
-
-	var leftSibling, rightSibling int32Node
-	var leftCount, rightCount int
 
 	if index < len(i.runts)-1 {
 		// try right sibling first to encourage left leaning trees
@@ -141,9 +149,6 @@ func (i *int32InternalNode) deleteKey(minSize int, key int32) bool {
 
 	if index > 0 {
 		// try left sibling
-		leftSibling = i.children[index-1]
-		leftSibling.lock()
-		defer leftSibling.unlock()
 		if leftCount = leftSibling.count(); leftCount > minSize {
 			child.adoptFromLeft(leftSibling)
 			i.runts[index] = child.smallest()
